@@ -77,3 +77,38 @@ Example C06_ids_monitor_rejects :
   (accepts step6ids q [AHttp (wids [1%N] [1%N]) (HErr TTransport); AHttp (wids [1%N] [2%N]) (HErr TTransport)] = true).
 Proof. vm_compute. repeat split. Qed.
 Print Assumptions C06_every_attempt_keeps_the_session_id_with_a_fresh_request_id.
+
+(* ---- the response-time metric accounts for exactly the attempts made (Model/Monitors6r.v step6r) ----
+   step6r rejects: a response-time metric that does not directly follow the clock reading that ends an attempt, or whose
+   duration is not the monotonic time elapsed since the reading that began the attempt, or whose flag is not the attempt's
+   success (2xx, and authentic when CUP is on; an attempt that never reached the wire failed); an attempt whose metric is
+   missing (unless the monotonic clock went backwards); two requests within one attempt; an update-check request outside
+   the two clock readings of an attempt. *)
+Require Import Verif.Model.Monitors6r Verif.Proofs.C06rtProof.
+Theorem C06_response_time_metric_accounts_for_exactly_the_attempts :
+  forall ep cfg url cup apps e, e_trace e = [] ->
+    accepts step6r (init6r cup) (run_case ep cfg url cup apps e) = true.
+Proof. exact model_accepted_c06rt. Qed.
+Section Examples6r.
+  Let w : wire := {| w_uri := []; w_headers := []; w_body := []; w_sum := {| ws_source := ScheduledTask; ws_session := None; ws_request := None; ws_apps := [] |} |}.
+  Let ck (t : Z) := AClock {| wall := t; mono := t |}.
+  Let start := [AEvent (EvState (CheckingForUpdates ScheduledTask)); ck 0].
+  Example C06_rt_monitor_rejects :
+    (* no metric for an attempt *)
+    accepts step6r (init6r None) (start ++ [ck 1; AHttp w (HErr TTransport); ck 5; ATimer (WFor 1000000000)]) = false
+    (* wrong duration; wrong flag; a second metric *)
+    /\ accepts step6r (init6r None) (start ++ [ck 1; AHttp w (HErr TTransport); ck 5; AMetric (MResponseTime 5 false)]) = false
+    /\ accepts step6r (init6r None) (start ++ [ck 1; AHttp w (HErr TTransport); ck 5; AMetric (MResponseTime 4 true)]) = false
+    /\ accepts step6r (init6r None) (start ++ [ck 1; AHttp w (HErr TTransport); ck 5; AMetric (MResponseTime 4 false); AMetric (MResponseTime 4 false)]) = false
+    (* a forged 2xx response counts as a failure when CUP is on, as a success when it is off *)
+    /\ accepts step6r (init6r (Some 1%N)) (start ++ [ck 1; AHttp w (HResp 200%N None false BBad); ck 5; AMetric (MResponseTime 4 true)]) = false
+    /\ accepts step6r (init6r None) (start ++ [ck 1; AHttp w (HResp 200%N None false BBad); ck 5; AMetric (MResponseTime 4 true)]) = true
+    (* the legitimate sequence, with a retry *)
+    /\ accepts step6r (init6r None) (start ++ [ck 1; AHttp w (HErr TTransport); ck 5; AMetric (MResponseTime 4 false); ATimer (WFor 1000000000);
+                                                ck 7; AHttp w (HResp 200%N None true BBad); ck 9; AMetric (MResponseTime 2 true);
+                                                AMetric (MRequestsPerCheck 2 true)]) = true
+    (* the monotonic clock went backwards: nothing is reported *)
+    /\ accepts step6r (init6r None) (start ++ [ck 5; AHttp w (HErr TTransport); ck 1; AMetric (MRequestsPerCheck 1 false)]) = true.
+  Proof. vm_compute. repeat split. Qed.
+End Examples6r.
+Print Assumptions C06_response_time_metric_accounts_for_exactly_the_attempts.
